@@ -203,6 +203,8 @@ def shards(tier):
         out.append({"kind": "pairs", "part": i, "of": 12, "stride": 1, "core": True})     # every pair over the core alphabet, both tiers
     for i in range(12):
         out.append({"kind": "pairs", "part": i, "of": 12, "stride": 16 if quick else 1, "core": False})
+    for i in range(3):
+        out.append({"kind": "grammar", "which": ["afe", "form", "afe"][i], "n": 6000 if quick else 150000})
     out.append({"kind": "determinism", "n": 300 if quick else 5000})
     out.append({"kind": "quirks"})
     if not quick:
@@ -243,6 +245,20 @@ def run_shard(desc, seed, tier):
                     acc.add(case, check_case(case))
                     n += 1
         acc.extra["mode_pair_cases_core" if desc.get("core") else "mode_pair_cases_full_alphabet"] = n
+    elif kind == "grammar":
+        # long sequences over tiny alphabets: states that need many *identical* or *paired* tokens in a row (Noah's ark across
+        # markers, stale form pointer, nested scopes) are out of reach of the general soup
+        AL = {"afe": ["<b>", "<b>", "<b>", "<i>", "</b>", "<p>", "</p>", "<table><tr><td>", "</table>", "<object>", "</object>", "x", "<a>", "</a>", "<nobr>", "<div>", "</div>",
+                      "<b a=1>", "<caption>", "<marquee>", "</marquee>", "<button>", "</button>", "<applet>", "</applet>", "<td>", "</td>", "<th>", " "],
+              "form": ["<form>", "<form>", "</form>", "</form>", "<table>", "</table>", "<object>", "</object>", "<marquee>", "</marquee>", "<applet>", "</applet>", "<div>", "</div>", "<p>", "x",
+                       "<input>", "<tr>", "<td>", "</td>", "<template>", "</template>", "<button>", "</button>", "<select>", "</select>", "<svg>", "</svg>", "<li>", "<dd>"]}[desc["which"]]
+        strat = st.tuples(st.lists(st.sampled_from(AL), min_size=4, max_size=16).map("".join), st.sampled_from([None, None, None, "div", "td", "table", "form", "object"]), st.booleans())
+
+        def fn(x):
+            text, container, scripting = x
+            case = {"text": text, "container": container, "scripting": scripting}
+            acc.add(case, check_case(case))
+        drive(strat, fn, desc["n"], seed)
     elif kind == "quirks":
         # the quirks tables, observed through the tree: in quirks mode <table> does not close an open p
         pubs = list(T.QUIRKS_PUBLIC_PREFIXES) + list(T.QUIRKS_PUBLIC_EXACT) + list(T.LIMITED_QUIRKS_PREFIXES) + \
